@@ -274,8 +274,8 @@ func init() {
 			}
 			if g == 0 {
 				// receiver clause: a malformed datagram/frame does not prevent later well-formed ones
-				for _, L := range []int64{1, 6, 8, 10, 12} {
-					out = append(out, Inst{Pkg: "knxnet", Fn: "HarnessC16UDP", Args: []int64{1, 3, L}, NoNative: true, Note: "UDP receiver: arbitrary datagram first"})
+				for _, L := range []int64{-1, 1, 6, 8, 10, 12} {
+					out = append(out, Inst{Pkg: "knxnet", Fn: "HarnessC16UDP", Args: []int64{1, 3, L}, NoNative: true, Note: "UDP receiver: arbitrary (L = -1: empty) datagram first"})
 				}
 				out = append(out, Inst{Pkg: "knxnet", Fn: "HarnessC16TCPBad", Args: []int64{0, 1}, NoNative: true, UnwindIsHang: true}, Inst{Pkg: "knxnet", Fn: "HarnessC16TCPBad", Args: []int64{1, 1}, NoNative: true, UnwindIsHang: true})
 			}
@@ -613,6 +613,21 @@ func init() {
 				}
 			}
 		}
+		// longer bursts with the reader resuming in the middle: a backlog of three or more is being
+		// drained while further telegrams are accepted (queue storage reused too early shows only here)
+		deep := []int64{6, 7}
+		if maxK > 3 {
+			deep = []int64{6, 7, 8}
+		}
+		for _, k := range deep {
+			out = append(out, Inst{Pkg: "knx", Fn: "HarnessC17", Args: []int64{0, k, 3}, Note: "long burst, reader resumes in the middle"})
+		}
+		out = append(out, Inst{Pkg: "knx", Fn: "HarnessC17BB", Args: []int64{1, 6, 3}, Ctx: 2, Note: "long burst, router"},
+			Inst{Pkg: "knx", Fn: "HarnessC17BB", Args: []int64{5, 6, 3}, Ctx: 2, Note: "long burst, tunnel built by NewTunnel"})
+		if maxK > 3 {
+			out = append(out, Inst{Pkg: "knx", Fn: "HarnessC17", Args: []int64{0, 7, 1}, Note: "long burst, reader absent"},
+				Inst{Pkg: "knx", Fn: "HarnessC17BB", Args: []int64{1, 7, 3}, Ctx: 2})
+		}
 		return out
 	}
 	reg(&Spec{
@@ -621,8 +636,8 @@ func init() {
 		Quick:    func(l *loaded) []Inst { return c17(3) },
 		Thorough: func(l *loaded) []Inst { return c17(5) },
 		Covers:   []string{"C17.end"},
-		Bounds:   "tunnel client (pushInbound directly, through handleTunnelReq in UDP and TCP mode, and a client built by the real NewTunnel fed through its socket in UDP and TCP mode), router client (built by the real NewRouter, fed through its socket) and the group layer (serveGroupInbound on a plain channel, and a group tunnel built by NewGroupTunnel); bursts of 2..3 (thorough ..5) accepted telegrams; consumer always waiting, absent for the whole burst, taking one telegram and then stalling, or resuming in the middle of the burst; every interleaving of the server side, the parked delivery goroutines and the consumer",
-		Outside:  "bursts longer than 5; the runtime's FIFO order among senders that are already blocked is not modelled (any blocked sender may be served), which only adds schedules",
+		Bounds:   "tunnel client (pushInbound directly, through handleTunnelReq in UDP and TCP mode, and a client built by the real NewTunnel fed through its socket in UDP and TCP mode), router client (built by the real NewRouter, fed through its socket) and the group layer (serveGroupInbound on a plain channel, and a group tunnel built by NewGroupTunnel); bursts of 2..3 (thorough ..5) accepted telegrams for every client and consumer behaviour, plus bursts of 6 and 7 (thorough 8) with the reader resuming in the middle for the tunnel (pushInbound; NewTunnel-built, context bound 2) and the router (context bound 2); consumer always waiting, absent for the whole burst, taking one telegram and then stalling, or resuming in the middle of the burst; every interleaving of the server side, the parked delivery goroutines and the consumer",
+		Outside:  "bursts longer than 8; the runtime's FIFO order among senders that are already blocked is not modelled (any blocked sender may be served), which only adds schedules",
 		Assume:   []string{"the pinned tree reordered overflowed telegrams (per-telegram goroutines); repaired by the fix: commit recorded in known_findings.json, so all consumer behaviours are enforced now"},
 	})
 
@@ -805,8 +820,8 @@ func init() {
 		out = append(out, Inst{Pkg: "knxnet", Fn: "HarnessC16UDP", Args: []int64{2, 4, 0, 5}, Note: "two bus-monitor datagrams: decoded payloads must not alias the reused receive buffer"},
 			Inst{Pkg: "knxnet", Fn: "HarnessC16UDP", Args: []int64{2, 3, 0, 5}, Note: "two L_Data datagrams"})
 		out = append(out, Inst{Pkg: "knxnet", Fn: "HarnessC16TCPBig", Args: []int64{4200}, Unwind: 20000, Note: "a frame larger than bufio's 4096-byte buffer"})
-		for _, L := range []int64{1, 6, 8, 10, 12} {
-			out = append(out, Inst{Pkg: "knxnet", Fn: "HarnessC16UDP", Args: []int64{1, 3, L}, Note: "arbitrary datagram first, buffer reused"})
+		for _, L := range []int64{-1, 1, 6, 8, 10, 12} {
+			out = append(out, Inst{Pkg: "knxnet", Fn: "HarnessC16UDP", Args: []int64{1, 3, L}, Note: "arbitrary (L = -1: empty) datagram first, buffer reused"})
 		}
 		for udp := int64(0); udp < 2; udp++ {
 			for pend := int64(0); pend <= 2; pend++ {
@@ -855,8 +870,8 @@ func init() {
 		}
 		out = append(out, Inst{Pkg: "knxnet", Fn: "HarnessC16Origin", Note: "only datagrams from the queried address and port surface"})
 		// "malformed frames first": the UDP receiver behind both calls keeps delivering after a bad datagram
-		for _, L := range []int64{6, 8, 10} {
-			out = append(out, Inst{Pkg: "knxnet", Fn: "HarnessC16UDP", Args: []int64{1, 3, L}, Note: "UDP receiver: arbitrary datagram first"})
+		for _, L := range []int64{-1, 6, 8, 10} {
+			out = append(out, Inst{Pkg: "knxnet", Fn: "HarnessC16UDP", Args: []int64{1, 3, L}, Note: "UDP receiver: arbitrary (L = -1: empty) datagram first"})
 		}
 		return out
 	}
